@@ -162,6 +162,16 @@ theorem sched_wait_le_max (maxQ last : Int) (ws : List (Int × Req)) (s : List N
     exact h2.2 w hpc
   | _ => rw [hpc] at he; simp at he
 
+/-- **Every call returns**: after the schedule and the round-robin drain every worker has a result (the lock-free code
+    has no loop: at most five hooks per call). -/
+theorem sched_all_done (maxQ last : Int) (ws : List (Int × Req)) (s : List Nat) :
+    ∀ r ∈ ((Cfg.start maxQ last ws).runSched s).results, r ≠ none := by
+  intro r hr
+  simp only [Cfg.results, List.mem_map] at hr
+  obtain ⟨t, ht, rfl⟩ := hr
+  have := runSched_all_done _ s t ht
+  cases hpc : t.pc <;> simp [Th.isDone, hpc] at this ⊢
+
 /-- the statement C10 makes about schedules (spacing part): the admission log of every run is spaced -/
 def sched_spacing_statement : Prop :=
   ∀ (maxQ last : Int) (ws : List (Int × Req)) (s : List Nat),
@@ -170,14 +180,14 @@ def sched_spacing_statement : Prop :=
 /-- **Spacing under schedules, outside the two classified regions**: if no thread took a step while another one was
     parked before its rollback (`rb`), and no `add` left the timestamp behind its caller's clock (`stale`), then the
     admissions are spaced — in admission order, each pass time at least its own interval after the previous one —
-    and the shared timestamp (minus intervals about to be rolled back, `pend = 0` once everybody has finished) *is*
-    the latest pass time, i.e. the next round starts from a consistent state. -/
+    and the shared timestamp *is* the latest pass time afterwards, i.e. the next round (or the next sequential caller:
+    `spacing` starts from any `last`) starts from a consistent state. -/
 theorem sched_spacing_partial (maxQ last : Int) (ws : List (Int × Req)) (s : List Nat)
     (hrb : ((Cfg.start maxQ last ws).runSched s).rb = false)
     (hst : ((Cfg.start maxQ last ws).runSched s).stale = false) :
     Spaced last ((Cfg.start maxQ last ws).runSched s).log ∧
-    latest last ((Cfg.start maxQ last ws).runSched s).log =
-      ((Cfg.start maxQ last ws).runSched s).last - pend ((Cfg.start maxQ last ws).runSched s).ths := by
+    ((Cfg.start maxQ last ws).runSched s).last = latest last ((Cfg.start maxQ last ws).runSched s).log := by
+  refine good_final last _ ?_ (runSched_all_done _ s)
   have h0 : AllOk (Cfg.start maxQ last ws) := by
     intro t ht
     simp only [Cfg.start, List.mem_map] at ht
